@@ -7,6 +7,7 @@ toolchain go1.23.5
 require (
 	github.com/anishathalye/porcupine v1.3.0
 	github.com/goose-lang/goose v0.0.0
+	golang.org/x/tools v0.23.0
 	pgregory.net/rapid v1.3.0
 )
 
@@ -16,7 +17,6 @@ require (
 	golang.org/x/mod v0.19.0 // indirect
 	golang.org/x/sync v0.7.0 // indirect
 	golang.org/x/sys v0.22.0 // indirect
-	golang.org/x/tools v0.23.0 // indirect
 )
 
 replace github.com/goose-lang/goose => /repo
